@@ -19,6 +19,7 @@ def str_byte(b): return z3.And(z3.UGE(b, 0x20), z3.ULE(b, 0x7e), b != 0x22, b !=
 
 
 def case(prog, params):
+    if params['kind'].startswith('arr-'): return case_array(prog, params)
     ex = H.new_executor(prog, max_block_visits=400); ex.dec_digits = 5
     cons = []; sy = {}
     props = []
@@ -113,6 +114,88 @@ def case(prog, params):
     return res
 
 
+def case_array(prog, params):
+    """homogeneous arrays: to_json_from_list_* -> parse_as_list_*"""
+    ex = H.new_executor(prog, max_block_visits=400); ex.dec_digits = 4
+    cons = []; kind = params['kind']; n = params['n']
+    items = []; syms = []
+    if kind == 'arr-int':
+        ty = params['ty']; w = {'i8': 8, 'i16': 16, 'i32': 32, 'i64': 64, 'i128': 128, 'u8': 8, 'u16': 16, 'u32': 32, 'u64': 64, 'u128': 128}[ty]
+        for i in range(n):
+            v = z3.BitVec('e%d' % i, w)
+            lim = min(100, (1 << (w - 1)) - 1 if ty[0] == 'i' else (1 << w) - 1)
+            cons.append(z3.And(v >= -lim, v <= lim) if ty[0] == 'i' else z3.ULE(v, lim))
+            items.append(Int(ty, v)); syms.append(v)
+        fn_to = 'JSONArrayOfIntegers::to_json_from_list_' + ty; fn_from = 'JSONArrayOfIntegers::parse_as_list_' + ty
+    elif kind == 'arr-bool':
+        for i in range(n):
+            b = z3.Bool('e%d' % i); items.append(b); syms.append(b)
+        fn_to = 'JSONArrayOfBooleans::to_json_from_list_bool'; fn_from = 'JSONArrayOfBooleans::parse_as_list_bool'
+    else:
+        for i in range(n):
+            L = params['slen']
+            s = SymStr.fresh('e%d' % i, L, cons, exact_len=L, alphabet=str_byte) if L else S('')
+            items.append(s); syms.append(s)
+        fn_to = 'JSONArrayOfStrings::to_json_from_list_string'; fn_from = 'JSONArrayOfStrings::parse_as_list_string'
+    st = State(); st.pc = list(cons)
+    res = {'violations': [], 'inconclusive': [], 'samples': [], 'kinds': {}, 'compared': 0}
+
+    def wit(m):
+        vals = []
+        for s_ in syms:
+            if isinstance(s_, SymStr): vals.append(model_bytes(m, s_).decode('latin1'))
+            elif z3.is_bool(s_): vals.append(z3.is_true(m.eval(s_, model_completion=True)))
+            else:
+                x = m.eval(s_, model_completion=True).as_long(); wd = s_.size()
+                vals.append(x - (1 << wd) if (kind == 'arr-int' and params['ty'][0] == 'i' and x >> (wd - 1)) else x)
+        return {'kind': kind, 'params': params, 'items': vals}
+
+    def cls(w):
+        if kind == 'arr-int' and any(isinstance(x, int) and x < 0 for x in w['items']):
+            return ':negative-element' + (':last' if w['items'][-1] < 0 else '')
+        if kind == 'arr-string' and any(x == '' for x in w['items']): return ':empty-string-element'
+        return ''
+    for g in ex.run_fn(fn_to, [Vec(items)], st):
+        if g.outcome[0] != 'return' or g.outcome[1].variant != 'Ok':
+            k = 'to_json:' + outcome_kind(g.outcome); res['kinds'][k] = res['kinds'].get(k, 0) + 1
+            if g.outcome[0] == 'stop':
+                if not g.outcome[1].startswith(('domain:', 'bound:itoa')): res['inconclusive'].append({'status': g.outcome[1], 'error': str(g.outcome[2])[:200]})
+                continue
+            r, m = ex.check(g.pc)
+            if r == 'sat':
+                w = wit(m); res['violations'].append({'key': 'C19:array-to-json-fails%s' % cls(w), 'text': '%s fails or panics: %r for %r' % (fn_to, g.outcome[:2], w['items']), 'witness': w})
+            continue
+        text = g.outcome[1].fields[0]
+        st2 = State(); st2.pc = list(g.pc)
+        for o in ex.run_fn(fn_from, [text], st2):
+            k = 'parse:' + outcome_kind(o.outcome) + (':' + o.outcome[1].variant if o.outcome[0] == 'return' else ''); res['kinds'][k] = res['kinds'].get(k, 0) + 1
+            if o.outcome[0] == 'stop':
+                if not o.outcome[1].startswith(('domain:', 'bound:itoa')): res['inconclusive'].append({'status': o.outcome[1], 'error': str(o.outcome[2])[:200]})
+                continue
+            if o.outcome[0] == 'panic' or o.outcome[1].variant != 'Ok':
+                r, m = ex.check(o.pc)
+                if r == 'sat':
+                    w = wit(m); res['violations'].append({'key': 'C19:array-%s%s' % ('parse-panics' if o.outcome[0] == 'panic' else 'text-rejected', cls(w)), 'text': '%s %s on %r (items %r)' % (fn_from, 'panics' if o.outcome[0] == 'panic' else 'rejects', model_bytes(m, text), w['items']), 'witness': w})
+                continue
+            got = o.outcome[1].fields[0].items; res['compared'] += 1
+            checks = []
+            if len(got) != len(items): checks.append(('length-%d-for-%d' % (len(got), len(items)), True))
+            else:
+                for a, b in zip(got, items):
+                    if isinstance(b, SymStr): checks.append(('element', b_not(a.eq(b))))
+                    elif isinstance(b, Int): checks.append(('element', b_not(int_binop('Eq', a, b))))
+                    else: checks.append(('element', b_not(b_eq(a, b))))
+            for label, bad in checks:
+                bad = simp_bool(bad) if not isinstance(bad, bool) else bad
+                if bad is False: continue
+                r, m = ex.check(o.pc, bad)
+                if r == 'unknown': res['inconclusive'].append({'status': 'solver-unknown', 'error': label}); continue
+                if r == 'sat':
+                    w = wit(m); res['violations'].append({'key': 'C19:array-roundtrip-%s%s' % (label, cls(w)), 'text': 'array round trip differs (%s) for %r (text %r)' % (label, w['items'], model_bytes(m, text)), 'witness': w})
+    res.update(H.ex_summary(ex)); res['samples'].append({'case': params, 'kinds': res['kinds'], 'compared': res['compared']})
+    return res
+
+
 def classify(w):
     if 'int' in w and w['int'] < 0: return ':negative-integer'
     if w.get('str') == '': return ':empty-string'
@@ -128,12 +211,21 @@ def main():
     cases = [dict(kind='i128', sign='nonneg'), dict(kind='i128', sign='any'), dict(kind='bool'), dict(kind='two')]
     for n in ((0, 1, 2) if q else (0, 1, 2, 3)): cases.append(dict(kind='string', n=n))
     for v in (0, -1, 2 ** 127 - 1, -(2 ** 127), 10 ** 20): cases.append(dict(kind='i128-const', value=v))
+    for n in ((0, 1, 2) if q else (0, 1, 2, 3)):
+        for ty in (('i64', 'u16') if q else ('i8', 'i16', 'i32', 'i64', 'i128', 'u16', 'u32', 'u64', 'u128')): cases.append(dict(kind='arr-int', ty=ty, n=n))
+        cases.append(dict(kind='arr-bool', n=n))
+        for sl in (0, 1): cases.append(dict(kind='arr-string', n=n, slen=sl))
     chk.bounds = {'cases': cases}
     results = chk.run_cases(case, cases, label='to_json_string -> parse_as_properties', case_timeout=600)
     chk.extra['compared'] = sum(r.get('compared', 0) for r in results)
 
     def replay(v):
         w = v['witness']
+        if w['kind'].startswith('arr-'):
+            args = [w['kind'].encode(), w['params'].get('ty', '').encode()] + [(str(x).lower() if isinstance(x, bool) else str(x)).encode('latin1') for x in w['items']]
+            st, out = chk.oracle.run([('json_array_roundtrip', args)])[0]
+            if st != 'ok': return {'reproduced': True, 'native': st, 'msg': out[0].decode('latin1')[:200] if out else ''}
+            return {'reproduced': out[0] != b'same', 'native': [x.decode('latin1') for x in out]}
         args = [w['kind'].encode()]
         if 'int' in w: args.append(str(w['int']).encode())
         if 'bool' in w: args.append(b'true' if w['bool'] else b'false')
